@@ -255,6 +255,28 @@ pub fn run(ctx: &mut Ctx) {
             Err(e) => ctx.violation("perturbed-voice-does-not-load", J::from(format!("{}", e))),
         }
     });
+    // the bundled voice with the MSD flag of its log-F0 stream cleared in the (public) stream
+    // metadata: the flag only matters to the file parser, synthesis is sample-identical at
+    // h = 0, and the half tone must transpose this voice like any other
+    let n = ctx.n(24, 600);
+    {
+        use jbonsai::model::load_htsvoice_file;
+        use std::sync::Arc;
+        match load_htsvoice_file(&env.bundled_path) {
+            Ok(mut v) => {
+                v.stream_models[1].metadata.is_msd = false;
+                match crate::env::engine_from_voices(vec![Arc::new(v)]) {
+                    Ok(e) => {
+                        ctx.run_cases("msd-flag-cleared", n, false, |ctx, rng, idx| {
+                            one(ctx, &env, rng, &e, &env.bundled_ref, "bundled, LF0 metadata.is_msd = false", idx);
+                        });
+                    }
+                    Err(_) => ctx.inconclusive("engine from the bundled voice with the MSD flag cleared"),
+                }
+            }
+            Err(e) => ctx.inconclusive(&format!("bundled voice: {}", e)),
+        }
+    }
     // generated voices (2 and 3 streams, different window sets)
     let n = ctx.n(200, 3000);
     ctx.run_cases("synthetic", n, false, |ctx, rng, idx| {
